@@ -6,6 +6,25 @@ import (
 	"os"
 
 	"verifharness/props/c01"
+	"verifharness/props/c02"
+	"verifharness/props/c03"
+	"verifharness/props/c04"
+	"verifharness/props/c05"
+	"verifharness/props/c06"
+	"verifharness/props/c07"
+	"verifharness/props/c08"
+	"verifharness/props/c09"
+	"verifharness/props/c10"
+	"verifharness/props/c11"
+	"verifharness/props/c12"
+	"verifharness/props/c13"
+	"verifharness/props/c14"
+	"verifharness/props/c15"
+	"verifharness/props/c16"
+	"verifharness/props/c17"
+	"verifharness/props/c18"
+	"verifharness/props/c19"
+	"verifharness/props/c20"
 	"verifharness/vk"
 )
 
@@ -15,10 +34,33 @@ type entry struct {
 }
 
 var registry = map[string]entry{
-	"C01": {"exploration", c01.Run},
+	"C01": {c01.Level, c01.Run},
+	"C02": {c02.Level, c02.Run},
+	"C03": {c03.Level, c03.Run},
+	"C04": {c04.Level, c04.Run},
+	"C05": {c05.Level, c05.Run},
+	"C06": {c06.Level, c06.Run},
+	"C07": {c07.Level, c07.Run},
+	"C08": {c08.Level, c08.Run},
+	"C09": {c09.Level, c09.Run},
+	"C10": {c10.Level, c10.Run},
+	"C11": {c11.Level, c11.Run},
+	"C12": {c12.Level, c12.Run},
+	"C13": {c13.Level, c13.Run},
+	"C14": {c14.Level, c14.Run},
+	"C15": {c15.Level, c15.Run},
+	"C16": {c16.Level, c16.Run},
+	"C17": {c17.Level, c17.Run},
+	"C18": {c18.Level, c18.Run},
+	"C19": {c19.Level, c19.Run},
+	"C20": {c20.Level, c20.Run},
 }
 
 func main() {
+	if len(os.Args) >= 2 && os.Args[1] == "child" {
+		childMain(os.Args[2:])
+		return
+	}
 	if len(os.Args) < 3 {
 		fmt.Fprintln(os.Stderr, "usage: vh <property> <quick|thorough>")
 		os.Exit(2)
@@ -36,4 +78,18 @@ func main() {
 	r := vk.NewRun(prop, tier, e.level)
 	e.run(r)
 	os.Exit(r.Finish())
+}
+
+// childMain dispatches sub-process work: vh child <name> <args...>. Packages register their
+// child entry points in vk.Children.
+func childMain(args []string) {
+	if len(args) == 0 {
+		os.Exit(2)
+	}
+	f, ok := vk.Children[args[0]]
+	if !ok {
+		fmt.Fprintln(os.Stderr, "unknown child", args[0])
+		os.Exit(2)
+	}
+	os.Exit(f(args[1:]))
 }
